@@ -1032,6 +1032,138 @@ fn finish_counts(run: &mut Run<'_>, complete: bool) {
 
 /// A panic that escaped a scenario: the crate's own messages (its panicking entry points are `#[track_caller]`, so
 /// the location is in this file) are the crate's behaviour; anything else raised from this file is a harness bug.
+/// Weak limit reached on an allocation whose value is already gone (by reference counting, by the collector, by
+/// try_unwrap): the side record is all that is left, Weak::clone must still panic at 32767 with the count unchanged,
+/// and no Weak may ever come back to life (strong_count 0, upgrade None throughout).
+#[cfg(feature = "weak-ptrs")]
+fn dead_value_scenario(how: &'static str, rep: &mut Report, reduced: bool) {
+    let id_str = format!("deadweak-{}", how);
+    let replay = vec!["--only".to_string(), id_str.clone()];
+    let mut viol = |rep: &mut Report, oracle: &str, detail: String| {
+        rep.viol(P, oracle, &format!("{}:{}:wclone_dead:{}", P, oracle, how), &format!("scenario {} [{} {}]: {}", id_str, features_string(), profile_string(), detail), &replay);
+    };
+    let (cc, id) = new_node();
+    let w0 = cc.downgrade();
+    match how {
+        "rc" => drop(cc),
+        "collector" => {
+            set_edge(&cc, Some(cc.clone()));
+            drop(cc);
+            collect_until_quiet();
+        }
+        _ => match cc.try_unwrap() {
+            Ok(v) => drop(v),
+            Err(_) => {
+                viol(rep, "setup", "try_unwrap of a unique Cc failed".into());
+                return;
+            }
+        },
+    }
+    if read(&DROPS, id) != 1 {
+        viol(rep, "setup", format!("value not dropped exactly once before the climb ({} drops)", read(&DROPS, id)));
+        return;
+    }
+    let dead = |w: &Weak<Node>| w.strong_count() == 0 && w.upgrade().is_none();
+    let mut weaks: Vec<Weak<Node>> = Vec::with_capacity(WEAK_MAX as usize + 8);
+    let mut acquisitions = 0u64;
+    let mut panics = 0u64;
+    let mut probes = 0u64;
+    // climb
+    while (weaks.len() as i64) < WEAK_MAX - 1 {
+        let before = w0.weak_count() as i64;
+        let r = catch_unwind(AssertUnwindSafe(|| w0.clone()));
+        match r {
+            Ok(w) => weaks.push(w),
+            Err(_) => {
+                viol(rep, "early_panic", format!("Weak::clone panicked at weak count {} (limit {})", before, WEAK_MAX));
+                leak_all(weaks, w0);
+                return;
+            }
+        }
+        acquisitions += 1;
+        let n = weaks.len() as i64 + 1;
+        let check = !reduced || n % 256 == 0 || n > WEAK_MAX - 8;
+        if check {
+            probes += 1;
+            let after = w0.weak_count() as i64;
+            if after != before + 1 || after != n {
+                viol(rep, "count_step", format!("weak_count went from {} to {} on a successful Weak::clone ({} Weaks exist)", before, after, n));
+                leak_all(weaks, w0);
+                return;
+            }
+            if !dead(&w0) || !dead(weaks.last().unwrap()) {
+                viol(rep, "weak_after_death", format!("a Weak to the dead value came back to life at weak count {} (strong_count {}, upgrade is_some {})", after, w0.strong_count(), w0.upgrade().is_some()));
+                leak_all(weaks, w0);
+                return;
+            }
+        }
+    }
+    // over the limit: 5 attempts, then hysteresis
+    for round in 0..2 {
+        for attempt in 0..5 {
+            let before = w0.weak_count();
+            let r = catch_unwind(AssertUnwindSafe(|| w0.clone()));
+            probes += 1;
+            match r {
+                Ok(w) => {
+                    weaks.push(w);
+                    viol(rep, "no_panic", format!("Weak::clone number {} over the limit of {} Weak pointers (value dead) did not panic", attempt, WEAK_MAX));
+                    leak_all(weaks, w0);
+                    return;
+                }
+                Err(_) => panics += 1,
+            }
+            let after = w0.weak_count();
+            if after != before || after as i64 != WEAK_MAX {
+                viol(rep, "count_changed_after_panic", format!("weak_count changed from {} to {} across a refused Weak::clone", before, after));
+                leak_all(weaks, w0);
+                return;
+            }
+            if !dead(&w0) || !dead(&weaks[0]) || !dead(weaks.last().unwrap()) {
+                viol(rep, "weak_after_death", format!("after a refused Weak::clone at the limit a Weak to the dead value reports strong_count {} / upgrade is_some {}", w0.strong_count(), w0.upgrade().is_some()));
+                leak_all(weaks, w0);
+                return;
+            }
+        }
+        if round == 0 {
+            for _ in 0..3 {
+                weaks.pop();
+            }
+            for _ in 0..3 {
+                match catch_unwind(AssertUnwindSafe(|| w0.clone())) {
+                    Ok(w) => weaks.push(w),
+                    Err(_) => {
+                        viol(rep, "count_after_release", "after dropping 3 Weaks, fewer than 3 Weak::clone calls succeeded".into());
+                        leak_all(weaks, w0);
+                        return;
+                    }
+                }
+            }
+        }
+    }
+    drop(weaks);
+    if w0.weak_count() != 1 || !dead(&w0) {
+        viol(rep, "count_after_release", format!("after dropping every clone weak_count is {}", w0.weak_count()));
+    }
+    drop(w0);
+    rep.evaluations += 1;
+    rep.count("acquisitions", acquisitions);
+    rep.count("panics_observed", panics);
+    rep.count("boundary_probes", probes);
+    rep.count("dead_value_weak_scenarios", 1);
+    rep.set_add("routes", "wclone_dead");
+    let mut h = vcommon::rng::Fnv::new();
+    h.str(&id_str);
+    rep.nontrivial(h.finish());
+}
+
+#[cfg(feature = "weak-ptrs")]
+fn leak_all(weaks: Vec<Weak<Node>>, w0: Weak<Node>) {
+    // after a violation the counters cannot be trusted: never run the destructors
+    std::mem::forget(weaks);
+    std::mem::forget(w0);
+}
+
 fn is_harness_bug(msg: &str) -> bool {
     let crate_msg = msg.contains("references has been created") || msg.contains("while tracing") || msg.contains("while collecting");
     let here = msg.contains(" @ src/") || msg.contains("p_ptr/src") || msg.contains("common/src");
@@ -1090,6 +1222,27 @@ fn main() {
                     replay.push("--reduced".into());
                 }
                 rep.viol(P, "unexpected_panic", &sig, &format!("scenario {}: a panic escaped from the crate: {}", scn.id(), m), &replay);
+            }
+        }
+    }
+    #[cfg(feature = "weak-ptrs")]
+    for (k, how) in ["rc", "collector", "unwrap"].iter().enumerate() {
+        let idn = format!("deadweak-{}", how);
+        let pick = match &only {
+            Some(id) => *id == idn,
+            None => (all.len() + k) % nshards == shard && !(args.flag("--reduced") && k != shard % 3),
+        };
+        if pick {
+            ran += 1;
+            let r = catch_unwind(AssertUnwindSafe(|| dead_value_scenario(how, &mut rep, args.flag("--reduced"))));
+            if r.is_err() {
+                let m = last_panic();
+                if is_harness_bug(&m) {
+                    eprintln!("harness error in scenario {}: {}", idn, m);
+                    rep.emit();
+                    std::process::exit(3);
+                }
+                rep.viol(P, "unexpected_panic", &format!("{}:unexpected_panic:wclone_dead:escaped:{}", P, how), &format!("scenario {}: a panic escaped from the crate: {}", idn, m), &["--only".to_string(), idn.clone()]);
             }
         }
     }
